@@ -190,6 +190,19 @@ let clauses_iter h (impl : string) : (string * bool) list =
       ("slices_spec", exp_slices = Some (get ih "slices"));
       ("recap_id", get ih "recap" = fmt_ops ops) ]
 
+let clauses_group h (impl : string) : (string * bool) list =
+  if impl = "PANIC" || impl = "TIMEOUT" then [ ("no_panic", false) ]
+  else
+    let ih = parse_impl impl in
+    let nn = nat_of_int (int_of_string (get h "n")) in
+    let ops = calls_to_ops (parse_calls (get h "ops")) in
+    let gs =
+      match get ih "groups" with
+      | "-" -> []
+      | s -> List.map (fun g -> calls_to_ops (parse_calls g)) (String.split_on_char '|' s)
+    in
+    [ ("no_panic", true); ("group_spec", check_groups ops nn gs) ]
+
 let clauses (line : string) (impl : string) : (string * bool) list =
   let comp, h = parse_kv line in
   match comp with
@@ -197,6 +210,7 @@ let clauses (line : string) (impl : string) : (string * bool) list =
   | "capture" -> clauses_capture h impl
   | "adapter" -> clauses_adapter h impl
   | "iter" -> clauses_iter h impl
+  | "group" -> clauses_group h impl
   | _ -> Text_checks.clauses comp h impl
 
 let main (cases : string) (impl : string) : unit =
